@@ -20,7 +20,8 @@ from datetime import datetime
 
 ASCII = [chr(i) for i in range(1, 128)]
 HIGH = [c for c in CP1252 if ord(c.encode("cp1252")) >= 0x80]
-UNENC = ["Ā", "中", "\U0001F600", "\x81", "\x8d", "\x9d", "₭", "Δ", "�", "\udce9", "\udc81", "\ud800"]
+UNENC = ["Ā", "中", "\U0001F600", "\x81", "\x8d", "\x9d", "₭", "Δ", "�", "\udce9", "\udc81", "\ud800",
+         "\u212a", "\u212b", "\u037e", "\u0301", "\u030c"]      # (compose to cp1252 characters under NFC / NFKC: still not encodable as given)
 UNDEFINED_BYTES = {0x81, 0x8D, 0x8F, 0x90, 0x9D}
 
 
